@@ -403,6 +403,156 @@ def check_point_lists(ctx, db):
                 ctx.check(val == ('false' if l == 0 else 'true'), 'R-TABLE', 'point-list/first-axis:%s' % names[l], top.loc(), 'type %d starts with a %s delta' % (l, 'horizontal' if l == 0 else 'vertical'))
 
 
+# ---------------------------------------------------------------- point-list classifier as a finite automaton
+
+PL_CLASSES = ('H', 'V', 'P', 'M', 'G')   # y==0 | x==0 | x==y | x==-y | none of them (non-zero deltas)
+
+
+def pl_cond(c, vec, cls, prev):
+    """truth value of a classifier condition for a delta of class cls held in variable `vec`"""
+    c = _strip_casts(c)
+    if c.k == 'ParenExpr':
+        return pl_cond(c.c[0], vec, cls, prev)
+    if c.k == 'UnaryOperator' and c.op == '!':
+        return not pl_cond(c.child('sub'), vec, cls, prev)
+    if c.k == 'DeclRefExpr' and c.n == 'prev_delta_is_horizontal':
+        return prev
+    if c.k == 'BinaryOperator' and c.op in ('&&', '||'):
+        a = pl_cond(c.child('lhs'), vec, cls, prev)
+        if c.op == '&&':
+            return a and pl_cond(c.child('rhs'), vec, cls, prev)
+        return a or pl_cond(c.child('rhs'), vec, cls, prev)
+    if c.k == 'BinaryOperator' and c.op in ('==', '!='):
+        l, r = norm(c.child('lhs').text()), norm(c.child('rhs').text())
+        truth = None
+        if (l, r) == (vec + '.y', '0'):
+            truth = cls == 'H'
+        elif (l, r) == (vec + '.x', '0'):
+            truth = cls == 'V'
+        elif (l, r) == (vec + '.x', vec + '.y'):
+            truth = cls == 'P'
+        elif (l, r) in ((vec + '.x', '(-%s.y)' % vec), (vec + '.x', '-%s.y' % vec)):
+            truth = cls == 'M'
+        if truth is not None:
+            return truth if c.op == '==' else not truth
+    raise AnalysisBroken('point-list classifier: condition `%s` not recognised' % norm(c.text())[:80])
+
+
+def pl_exec(stmts, vec, cls, state, names):
+    """run one switch arm: returns the new (list_type, prev)"""
+    lt, prev = state
+
+    def run(s):
+        nonlocal lt, prev
+        if s is None:
+            return True
+        if s.k == 'CompoundStmt':
+            for c in s.c:
+                if not run(c):
+                    return False
+            return True
+        if s.k == 'IfStmt':
+            br = s.child('then') if pl_cond(s.child('cond'), vec, cls, prev) else s.child('else')
+            return run(br)
+        if s.k == 'BreakStmt':
+            return False
+        if is_assign(s):
+            l = norm(s.child('lhs').text())
+            r = _strip_casts(s.child('rhs'))
+            if l == 'list_type' and r.k == 'DeclRefExpr' and r.dk == 'enum':
+                lt = names[r.cv]
+                return True
+            if l == 'prev_delta_is_horizontal' and r.k == 'CXXBoolLiteralExpr':
+                prev = bool(r.v)
+                return True
+        raise AnalysisBroken('point-list classifier: statement `%s` not recognised' % norm(s.text())[:80])
+    for s in stmts:
+        if not run(s):
+            break
+    return lt, prev
+
+
+def pl_arm(sw, lt, names):
+    inv = {v: k for k, v in names.items()}
+    dflt = None
+    for labels, stmts, top in tables.switch_arms(sw):
+        if inv.get(lt) in labels:
+            return stmts
+        if 'default' in labels:
+            dflt = stmts
+    return dflt if dflt is not None else []
+
+
+def pl_admits(lt, summ, closing=None):
+    first, last, alt, kind = summ
+    if closing is not None:
+        ck = 0 if closing in ('H', 'V') else (1 if closing in ('P', 'M') else 2)
+        kind = max(kind, ck)
+        alt = alt and closing in ('H', 'V') and closing != last
+    if lt == 'ManhattanHorizontalFirst':
+        return alt and first == 'H' and kind == 0
+    if lt == 'ManhattanVerticalFirst':
+        return alt and first == 'V' and kind == 0
+    if lt == 'Manhattan':
+        return kind == 0
+    if lt == 'Octangular':
+        return kind <= 1
+    return lt == 'General'
+
+
+def check_point_list_fsm(ctx, db):
+    """Abstract interpretation of the list-type classifier over delta classes: every reachable final state
+    names a list type whose codec can represent every delta seen (and, for closed lists, the closing delta)."""
+    ws = [f for f in db.fn('gdstk::oasis_write_point_list', all=True) if 'IntVec2' in f.sig]
+    w = ws[0]
+    names = {c['v']: c['n'] for c in db.enum('gdstk::OasisPointList')['consts']}
+    sws = tables.switches_on(w, 'OasisPointList')
+    if len(sws) != 3:
+        raise AnalysisBroken('oasis_write_point_list: expected the step, closing and emission switches')
+    step, close = sws[0], sws[1]
+    loop = next((a for a in step.ancestors() if a.k == 'ForStmt'), None)
+    cl_if = next((a for a in close.ancestors() if a.k == 'IfStmt'), None)
+    if loop is None or cl_if is None or norm(cl_if.child('cond').text()) != 'closed':
+        raise AnalysisBroken('oasis_write_point_list: classifier structure not recognised')
+    init = next((v for v in w.walk() if v.k == 'VarDecl' and v.n == 'list_type'), None)
+    st0 = (names[_strip_casts(init.child('init')).cv], False)
+    start = (st0, (None, None, True, 0))
+    seen = {start}
+    work = [start]
+    while work:
+        (st, summ) = work.pop()
+        for cls in PL_CLASSES:
+            st2 = pl_exec(pl_arm(step, st[0], names), 'v', cls, st, names)
+            first, last, alt, kind = summ
+            axis = cls if cls in ('H', 'V') else 'O'
+            k2 = max(kind, 0 if cls in ('H', 'V') else (1 if cls in ('P', 'M') else 2))
+            s2 = (first if first is not None else axis, axis, alt and axis != 'O' and axis != last, k2)
+            nxt = (st2, s2)
+            if nxt not in seen:
+                seen.add(nxt)
+                work.append(nxt)
+    ctx.explored['valuations'] += len(seen)
+    bad_open, bad_closed = [], []
+    for (st, summ) in seen:
+        if summ[0] is None:
+            continue
+        if not pl_admits(st[0], summ):
+            bad_open.append((st, summ))
+        for cls in PL_CLASSES:
+            st2 = pl_exec(pl_arm(close, st[0], names), 'last_delta', cls, st, names)
+            if not pl_admits(st2[0], summ, closing=cls):
+                bad_closed.append((st, summ, cls, st2[0]))
+
+    def show(x):
+        st, summ = x[0], x[1]
+        return 'after deltas (first %s, last %s, alternating %s, %s) in state %s' % (summ[0], summ[1], summ[2], ('rectilinear', 'octangular', 'general')[summ[3]], st[0])
+    ctx.check(not bad_open, 'R-FSM', 'point-list/classifier-open', step.loc(), '%d reachable classifier states: the list type chosen for an open list can encode every delta seen' % len(seen),
+              'open list: %s the chosen type cannot encode the deltas' % (show(bad_open[0]) if bad_open else ''))
+    ctx.check(not bad_closed, 'R-FSM', 'point-list/classifier-closed', close.loc(), 'for every reachable state and every class of closing delta the final type can encode all deltas and the implicit closing edge (types 0/1 only when the closing edge alternates with the last explicit one)',
+              'closed list: %s, closing delta of class %s -> type %s, which cannot represent it (the reader re-creates the implicit vertex elsewhere)' % ((show(bad_closed[0]), bad_closed[0][2], bad_closed[0][3]) if bad_closed else ('', '', '')))
+    ctx.require('R-FSM classifier states', len(seen), 20)
+
+
 def check_gds_real(ctx, db):
     e, d = db.fn('gdstk::gdsii_real_from_double'), db.fn('gdstk::gdsii_real_to_double')
     ctx.touch(e)
@@ -457,11 +607,12 @@ def run(ctx):
     check_swaps(ctx, db)
     check_reals(ctx, db)
     check_point_lists(ctx, db)
+    check_point_list_fsm(ctx, db)
     check_gds_real(ctx, db)
 
 
 MANIFEST = dict(
-    text='Decides structural necessary conditions of lossless number codecs: both varint overflow guards are exact over every reachable decoder state x byte value (no silent wrap, no false overflow on terminal bytes, shift < 64, Overflow flagged); writer and reader packing parameters agree at every call-site pair and inside the two internal routines; for every sign/equality class of (x, y) the 2-/3-/g-delta writers composed with the readers are the identity and the direction/point-list/real type codes equal the specification; the six byte-swap bodies are exactly the byte-reversal permutation (bit-provenance domain) under opposite host guards; the real-number writer forms have inverse reader arms and doubles are cast only after proved integral; closed Manhattan lists drop/re-create exactly one delta; the 8-byte-real constants are paired and the exponent uses a normalising idiom. The one-ulp claim and behaviour at 64-bit/exponent boundaries of floating arithmetic are not decided.',
+    text='Decides structural necessary conditions of lossless number codecs: both varint overflow guards are exact over every reachable decoder state x byte value (no silent wrap, no false overflow on terminal bytes, shift < 64, Overflow flagged); writer and reader packing parameters agree at every call-site pair and inside the two internal routines; for every sign/equality class of (x, y) the 2-/3-/g-delta writers composed with the readers are the identity and the direction/point-list/real type codes equal the specification; the six byte-swap bodies are exactly the byte-reversal permutation (bit-provenance domain) under opposite host guards; the real-number writer forms have inverse reader arms and doubles are cast only after proved integral; closed Manhattan lists drop/re-create exactly one delta; the point-list type classifier, interpreted as a finite automaton over delta classes (horizontal, vertical, two diagonals, general), ends in every reachable state with a list type whose delta codec can represent all deltas seen and, for closed lists, the closing edge; the 8-byte-real constants are paired and the exponent uses a normalising idiom. The one-ulp claim and behaviour at 64-bit/exponent boundaries of floating arithmetic are not decided.',
     note='Trusted: clang front end, gx, sa rules. Guards and writer conditions are pure integer expressions evaluated over finite abstract state sets (decoder states derived from the initialiser and step constants; sign/equality classes of (x, y)); no library code is executed. An exponent computation outside the two confirmed idioms is reported as analysis-broken (to be re-confirmed), a ceil without the bump as a violation.',
     technique='exhaustive evaluation of pure guard predicates over the reachable abstract decoder states + decision-table composition (writer o reader) + bit-provenance abstract domain for swaps + paired-constant rules',
     design='§4 C19')
